@@ -17,6 +17,8 @@ import Model.Util
     `Variant.original` is the code before the repair (the transition tuple was captured before the
     reset): kept for the witness that it hides the first observation.
   * real process scheduling is modelled by `MicroOp`s (one slice write each) applied in any order.
+  * shapes (§1b): `shapeSize`, the writer's slice `sliceOf`, the reader's `viewShape`, `bufLen`, `offsetOf`
+    (`Gen/VecRecvGen.lean` is the translation of the corresponding source; `Proofs/VecRecvGenEq.lean`).
   Core Lean only.
 -/
 namespace VecEnv
@@ -72,6 +74,27 @@ def writeAll {α} (sizes : List (List Nat)) (m : Mem α) (obsAll : List (List (L
 /-- what the parent hands out: `[agent][key][env]` rows (`Observations.__getitem__`) -/
 def parentObs {α} (m : Mem α) (sizes : List (List Nat)) (n : Nat) : List (List (List (List α))) :=
   sizes.mapIdx (fun a ks => ks.mapIdx (fun k sz => (List.range n).map (fun i => readRow (m.buf a k) sz i)))
+
+/-! ## 1b. shapes, offsets: writer slice and reader row (`write_to_shared_memory`, `Observations.__getitem__`,
+       `_create_memory_array`) -/
+
+/-- `int(np.prod(shape))` -/
+def shapeSize (shape : List Nat) : Nat := shape.foldl (· * ·) 1
+
+/-- the slice `index * size : (index + 1) * size` the worker `i` writes -/
+def sliceOf (size i : Nat) : Nat × Nat := (i * size, i * size + size)
+
+/-- the shape the parent presents a row with: `shape if shape != () else (1,)` -/
+def viewShape (shape : List Nat) : List Nat := if shape = [] then [1] else shape
+
+/-- `num_envs * int(np.prod(shape))`: length of the buffer `_create_memory_array` allocates -/
+def bufLen (n : Nat) (shape : List Nat) : Nat := n * shapeSize shape
+
+/-- offset of element `j` of worker `i`'s observation in the flat buffer -/
+def offsetOf (size i j : Nat) : Nat := i * size + j
+
+/-- flat sizes of the members of every agent's observation space, from their shapes -/
+def sizesOf (shapes : List (List (List Nat))) : List (List Nat) := shapes.map (·.map shapeSize)
 
 /-! ## 2. sub-environment, placeholders, worker step -/
 
